@@ -27,6 +27,7 @@ from nucs.constants import (
     SIGNATURE_CONSISTENCY_ALG,
     SIGNATURE_DOM_HEURISTIC,
     SIGNATURE_VAR_HEURISTIC,
+    STACK_MAX_HEIGHT_LIMIT,
     STATS_IDX_ALG_BC_NB,
     STATS_IDX_ALG_BC_WITH_SHAVING_NB,
     STATS_IDX_ALG_SHAVING_CHANGE_NB,
@@ -119,10 +120,14 @@ class BacktrackSolver(Solver):
         self.consistency_alg_idx = consistency_alg_idx
         self.triggered_propagators = np.ones(problem.propagator_nb, dtype=np.bool)
         logger.debug("Initializing choice points")
-        self.shr_domains_stack = np.empty((stack_max_height, self.problem.shr_domain_nb, 2), dtype=np.int32)
-        self.not_entailed_propagators_stack = np.empty((stack_max_height, self.problem.propagator_nb), dtype=np.bool)
-        self.dom_update_stack = np.empty((stack_max_height, 2), dtype=np.uint16)
-        self.stacks_top = np.ones((1,), dtype=np.uint8)
+        if not 0 < stack_max_height <= STACK_MAX_HEIGHT_LIMIT:
+            raise ValueError(f"stack_max_height must be in [1, {STACK_MAX_HEIGHT_LIMIT}]")
+        # a choice adds at most 2 levels: with these 2 extra levels solve_one() only has to check the height once
+        stack_height = stack_max_height + 2
+        self.shr_domains_stack = np.empty((stack_height, self.problem.shr_domain_nb, 2), dtype=np.int32)
+        self.not_entailed_propagators_stack = np.empty((stack_height, self.problem.propagator_nb), dtype=np.bool)
+        self.dom_update_stack = np.empty((stack_height, 2), dtype=np.uint16)
+        self.stacks_top = np.ones((1,), dtype=np.uint16)
         logger.info(f"Choice points stack has a maximal height of {stack_max_height}")
         cp_init(
             self.shr_domains_stack,
@@ -522,6 +527,8 @@ def solve_one(
         var_heuristic_fct = function_from_address(TYPE_VAR_HEURISTIC, var_heuristic_addrs[var_heuristic_idx])
         dom_heuristic_fct = function_from_address(TYPE_DOM_HEURISTIC, dom_heuristic_addrs[dom_heuristic_idx])
     while True:
+        if stacks_top[0] + 2 >= len(shr_domains_stack):
+            raise RuntimeError("The choice points stack is full, stack_max_height should be increased")
         status = consistency_alg_fct(
             statistics,
             algorithms,
